@@ -121,6 +121,10 @@ try:
         # a proof of possession honestly made with Original TTL 0 (a legal TTL) next to a non-zero <TTL>: what was signed is what is stated
         zreq = request([keys], sigmaker=lambda ks_, k, inc, exp: ksrxml.mk_sig(k, ks_, inc, exp, ottl=0, ttl=k["ttl"]))
         C.judge("original-ttl-zero-honest", pol(1), xml=ksrxml.render_ksr(zreq), desc={"original_ttl": 0, "ttl": keys[0]["ttl"]})
+        # TTLs over their whole range (RFC 2181: 0 .. 2^31-1), stated and signed
+        for t_ in (0, 1, 2**31 - 2, 2**31 - 1):
+            tk = [dict(k, ttl=t_) for k in keys]
+            C.judge("honest-ttl-range", pol(1), xml=ksrxml.render_ksr(request([tk])), desc={"ttl": t_}, built="accept")
         # fields that are not part of the signed data: still accepted
         r2 = clone(req); r2["bundles"][0]["sigs"][si]["ttl"] += 7
         C.judge("unsigned-field-sig-ttl", pol(1), xml=ksrxml.render_ksr(r2))
